@@ -26,6 +26,7 @@ structure St where
   hist : List (Nat × Chk × String × Img) := []   -- observed positions: txid, checksum, image digest, image
   appliedSince : Bool := false   -- a transaction file was applied since the last `state` line
   snapSince : Bool := false      -- ... and one of them was a snapshot (first TXID 1): a replica may then be at a lower TXID than before
+  ckptSince : Bool := false      -- a LiteFS checkpoint completed since the last `state` line
 
 def parseHex64 (s : String) : Option UInt64 :=
   (unhex s).map fun b => b.foldl (fun a x => a * 256 + x.toUInt64) 0
@@ -128,6 +129,7 @@ def check (st : St) (op obs : String) : St × String :=
            else if tx.commit ≠ h.2.2.2.length || tx.pages ≠ want then (st, "FAIL snapshot completed successfully but its pages are not the image of the position it reports")
            else (st, "ok"))
       | _ => (st, "FAIL unreadable snapshot result")
+  | ["ckpt"] => ({ st with ckptSince := obs == "ok" }, "ok")
   | ["crash-begin"] => ({ st with pre := some (st.posTxid, st.posChk, st.lastImg), post := none }, "ok")
   | ["crash-end"] => ({ st with awaitPost := true }, "ok")
   | ["crashpoint", _] =>
@@ -179,7 +181,11 @@ def check (st : St) (op obs : String) : St × String :=
     match (fieldOf ws "pos") >>= parsePos, (fieldOf ws "pageN") >>= String.toNat?, st.ref with
     | some (t, c), some n, some img =>
       let st' := { st with posTxid := t, posChk := c, appliedSince := false, snapSince := false, prevObsTxid := if st.ref.isSome && st.prev.isSome then some st.posTxid else none }
-      if st.replica && !st.appliedSince && (t ≠ st.posTxid || c ≠ st.posChk) && st.posTxid ≠ 0 then
+      let dsize := ((fieldOf ws "files").bind fun fs => (fs.splitOn ",").find? (·.startsWith "d:")).bind fun x => (x.drop 2).toString.toNat?
+      let st' := { st' with ckptSince := false }
+      if st.ckptSince && st.ps ≠ 0 && dsize.isSome && dsize ≠ some (n * st.ps) then
+        (st', s!"FAIL after a checkpoint the database file has {dsize.getD 0} bytes but the image has {n} pages of {st.ps} bytes")
+      else if st.replica && !st.appliedSince && (t ≠ st.posTxid || c ≠ st.posChk) && st.posTxid ≠ 0 then
         (st', "FAIL position changed on a node without write authority although no transaction file was applied")
       else if n ≠ img.length then (st', s!"FAIL database size {n} differs from what SQLite sees ({img.length} pages)")
       else if t ≠ 0 && c ≠ checksum (lockOf st.ps) img then (st', s!"FAIL reported checksum {hex16 c} differs from the from-scratch checksum {hex16 (checksum (lockOf st.ps) img)}")
